@@ -17,6 +17,27 @@ CLAIMED = {
         "axioms (known finding C02_NAN_DOUBLE): those obligations are proved on the complement. Composite classes not under contract.",
    note="Trusted: as C01; rational '<' is an assumed strict total order consistent with == (GMP).",
    tech="contract-based deductive verification with CBMC on mechanically extracted function text (route F: loop-free, full domain)"),
+ "C06": dict(cat="proof", design="§4 C06",
+   text="Contract proof (CBMC, loop-free, full domain of the ghost model) on the real text of Infty::add/mul/div/pow/rpow, Infty predicates, "
+        "NaN::add/mul/div/pow/rpow and Number::sub/rsub/div/rdiv: the extended-number rule table of the statement (nan absorbs, oo + -oo = nan, "
+        "0*oo = nan, finite factor keeps/flips direction, commutativity of + and * when one operand is an infinity or nan). "
+        "Finite x finite double dispatch and the 'float op finite is never exact' clause are not under contract.",
+   note="Trusted: ghost-number prelude (finite kinds: is_zero/is_positive/... read a ghost value; finite classes forward to the Infty/NaN methods), extraction rules, CBMC.",
+   tech="contract-based deductive verification with CBMC on mechanically extracted function text (route F), callers checked against assumed contracts of the finite number classes"),
+ "C25": dict(cat="proof", design="§4 C25",
+   text="Inductive contract proof (CBMC function and loop contracts via goto-instrument --dfcc, every iteration count) of the CSR canonical-form "
+        "predicates csr_has_sorted_indices / csr_has_duplicates / csr_has_canonical_format on their real bodies (soundness with ghost indices, completeness "
+        "with bounded witnesses, frame, termination, bounds/overflow), the last one modularly against the callee contracts. Array lengths are capped "
+        "(K=16 quick, 32 thorough) by the precondition.",
+   note="Trusted: signature-only rewrite std::vector<unsigned>& -> pointer; CBMC tool chain.",
+   tech="contract-based deductive verification: CBMC code contracts with loop invariants and decreases clauses (route P), modular --replace-call-with-contract"),
+ "C29": dict(cat="proof", design="§4 C29",
+   text="Contract proof (CBMC, loop-free) on the real text of Eq/Ne/Le/Ge/Lt/Gt from logic.cpp against assumed contracts of Number::sub, is_negative, "
+        "is_zero and eq: for all pairs of real numbers of any kind (integer, rational, double, +-oo) the four order relations are true exactly when "
+        "the numeric relation holds, Le = not Lt swapped, Ge = Le swapped, Eq/Ne symmetric and negations; invalid operands are rejected; symbolic "
+        "operands give the relation with operands in the stated order. The 'after substitution' clause is not covered.",
+   note="Trusted: ghost-number prelude (sub exact on ghost values; for doubles IEEE subtraction has the sign of the exact difference), __cmp__ total order (C02), extraction rules, CBMC.",
+   tech="contract-based deductive verification with CBMC on mechanically extracted function text (route F), callers checked against assumed contracts of Number::sub/is_negative/eq"),
 }
 
 NA = {
@@ -56,7 +77,7 @@ NA = {
  "C46": "Contejean-Devie is a stack-driven search whose termination and completeness are a mathematical theorem over unbounded integer vectors; the body is std::vector<DenseMatrix>/vector<vector<bool>> C++ and no unwinding bound closes the while loop.",
 }
 # claimed-in-design but not yet built: listed as not applicable *for now* with that reason, replaced as they are built
-PENDING = {'C05': 'claimed in DESIGN.md §4 but its check is not built yet in this commit; not claimed until bin/check C05 exists', 'C06': 'claimed in DESIGN.md §4 but its check is not built yet in this commit; not claimed until bin/check C06 exists', 'C17': 'claimed in DESIGN.md §4 but its check is not built yet in this commit; not claimed until bin/check C17 exists', 'C20': 'claimed in DESIGN.md §4 but its check is not built yet in this commit; not claimed until bin/check C20 exists', 'C24': 'claimed in DESIGN.md §4 but its check is not built yet in this commit; not claimed until bin/check C24 exists', 'C25': 'claimed in DESIGN.md §4 but its check is not built yet in this commit; not claimed until bin/check C25 exists', 'C29': 'claimed in DESIGN.md §4 but its check is not built yet in this commit; not claimed until bin/check C29 exists', 'C33': 'claimed in DESIGN.md §4 but its check is not built yet in this commit; not claimed until bin/check C33 exists', 'C34': 'claimed in DESIGN.md §4 but its check is not built yet in this commit; not claimed until bin/check C34 exists', 'C38': 'claimed in DESIGN.md §4 but its check is not built yet in this commit; not claimed until bin/check C38 exists'}
+PENDING = {'C05': 'claimed in DESIGN.md §4 but its check is not built yet in this commit; not claimed until bin/check C05 exists', 'C17': 'claimed in DESIGN.md §4 but its check is not built yet in this commit; not claimed until bin/check C17 exists', 'C20': 'claimed in DESIGN.md §4 but its check is not built yet in this commit; not claimed until bin/check C20 exists', 'C24': 'claimed in DESIGN.md §4 but its check is not built yet in this commit; not claimed until bin/check C24 exists', 'C33': 'claimed in DESIGN.md §4 but its check is not built yet in this commit; not claimed until bin/check C33 exists', 'C34': 'claimed in DESIGN.md §4 but its check is not built yet in this commit; not claimed until bin/check C34 exists', 'C38': 'claimed in DESIGN.md §4 but its check is not built yet in this commit; not claimed until bin/check C38 exists'}
 
 def main():
     ids = [json.loads(l)["id"] for l in open(os.path.join(V, "properties.jsonl"))]
